@@ -180,6 +180,47 @@ class Program:
                 self.trait_defaults[(segs[-2], segs[-1])] = f
                 self.free.setdefault(segs[-1], f)
 
+    def closure_arity(self, span):
+        f = self.closures.get(span)
+        if f is None:
+            return None
+        a = getattr(f, '_arity', None)
+        if a is None:
+            idx = [int(x) for x in re.findall(r'\(\*_1\)\.(\d+): ', f.raw[1])] + [int(x) for x in re.findall(r'\(_1\.(\d+): ', f.raw[1])]
+            a = f._arity = (max(idx) + 1) if idx else 0
+        return a
+
+    def parsed(self, fn):
+        """parse a body on first use; repair closure aggregates whose captures the MIR pretty-printer
+        collapsed (two captured places with the same variable name print as one field)"""
+        if fn.parsed:
+            return fn
+        mp.parse_body(fn)
+        for bb, (stmts, term) in fn.blocks.items():
+            for i, st in enumerate(stmts):
+                if st[0] == 'assign' and st[2][0] == 'closure':
+                    span, ops = st[2][1], st[2][2]
+                    need = self.closure_arity(span)
+                    if need is not None and need > len(ops):
+                        prev = []
+                        j = i - 1
+                        while j >= 0 and len(prev) < need:
+                            p = stmts[j]
+                            if p[0] == 'assign' and not p[1][1]:
+                                prev.append(p[1][0])
+                            else:
+                                break
+                            j -= 1
+                        prev.reverse()
+                        if len(prev) != need:
+                            raise Unsupported('cannot reconstruct captures of %s in %s' % (span, fn.name))
+                        printed = {o[1][0]: o for o in ops if o[0] in ('copy', 'move') and not o[1][1]}
+                        newops = [printed.get(l, ('move', (l, ()))) for l in prev]
+                        if not all(o in newops for o in ops):
+                            raise Unsupported('capture reconstruction mismatch for %s in %s' % (span, fn.name))
+                        stmts[i] = ('assign', st[1], ('closure', span, newops))
+        return fn
+
     def enum_info(self, printed):
         r = self.enum_cache.get(printed)
         if r is None:
@@ -308,6 +349,9 @@ class Ctx:
         self.natives_hit = set()
         self.notes = []
         self.covers = set()
+        self.obligations = 0
+        self.smt_obligations = 0
+        self.violations = []
 
     # --- symbolic inputs
     def sym_bv(self, name, width):
@@ -412,6 +456,40 @@ class Ctx:
 
     def cover(self, name):
         self.covers.add(name)
+
+    def law(self, name, formula, info=None):
+        """Proof obligation on this path: pc => formula.  Records a violation (with model) if pc & ~formula is sat."""
+        self.obligations += 1
+        if formula is True:
+            return True
+        if formula is False:
+            m = self.model()
+            self.violations.append({'law': name, 'model': m, 'info': info})
+            return False
+        f = z3.simplify(formula)
+        if z3.is_true(f):
+            return True
+        neg = z3.Not(f)
+        self.smt_obligations += 1
+        t0 = time.time()
+        self.solver.push(); self.solver.add(neg)
+        r = self.solver.check()
+        self.queries += 1
+        if r == z3.sat:
+            md = self.solver.model()
+            m = {}
+            for nm, v in self.syms.items():
+                val = md.eval(v, model_completion=True)
+                m[nm] = val.as_long() if z3.is_bv_value(val) else z3.is_true(val)
+            self.solver.pop()
+            self.solver_s += time.time() - t0
+            self.violations.append({'law': name, 'model': m, 'info': info})
+            return False
+        self.solver.pop()
+        self.solver_s += time.time() - t0
+        if r == z3.unknown:
+            raise Unsupported('z3 unknown on law ' + name)
+        return True
 
 # ------------------------------------------------------------------ scalars
 def width_of(ty):
@@ -847,7 +925,7 @@ class Exec:
         mf = self.prog.closures.get(clo.span)
         if mf is None:
             raise Unsupported('closure body ' + clo.span)
-        mp.parse_body(mf)
+        self.prog.parsed(mf)
         t1 = mf.arg_types[0]
         if t1.startswith('&'):
             a0 = selfarg_ref if selfarg_ref is not None else Ref(Cell(clo))
@@ -858,7 +936,7 @@ class Exec:
     def run_fn(self, fn, args):
         ctx = self.ctx
         if not fn.parsed:
-            mp.parse_body(fn)
+            self.prog.parsed(fn)
         ctx.depth += 1
         if ctx.depth > ctx.max_depth:
             raise BoundExceeded('call depth %d in %s' % (ctx.depth, fn.name))
@@ -897,7 +975,12 @@ class Exec:
                 elif k == 'call':
                     a = [self.operand(frame, o, fn) for o in term[3]]
                     dty = mp.place_type(term[1], fn)
-                    r = self.call(term[2], a, dty, fn)
+                    try:
+                        r = self.call(term[2], a, dty, fn)
+                    except Panic as pe:
+                        if pe.where is None:
+                            pe.where = fn.name
+                        raise
                     if term[4] is None:
                         raise Unsupported('diverging call returned: ' + term[2])
                     place = term[1]
